@@ -20,7 +20,7 @@ func VK01cShard() {
 		sto.shards = append(sto.shards, blobserver.Storage(s))
 		sto.shardPrefixes = append(sto.shardPrefixes, "s")
 	}
-	have := vmodel.SeqHistory(sto, blobs, 0, 3+vrt.Tier())
+	have := vmodel.SeqHistory(sto, blobs, 0, 3)
 	for i := range blobs {
 		k := sto.shardNum(blobs[i].Ref)
 		vrt.Assert(int(k) < n, "shardNum is within range")
